@@ -228,8 +228,8 @@ func footprint(p *pkgT, fd *ast.FuncDecl) []use {
 
 func genFootprints(w *bytes.Buffer) {
 	w.WriteString("-- GENERATED by /verif/extract from /repo — do not edit.\nnamespace Cose.Gen.Footprints\n\n")
-	w.WriteString("/-- per function: every (object, kind of use) where object is a receiver field `recv.f`,\n    the receiver itself `recv`, or a package-level variable `var:pkg.name` of the repository -/\n")
-	w.WriteString("def footprints : List (String × List (String × String)) := [\n")
+	w.WriteString("/-- per function (qualified name, receiver type or empty): every (object, kind of use) where object is a receiver field `recv.f`,\n    the receiver itself `recv`, or a package-level variable `var:pkg.name` of the repository -/\n")
+	w.WriteString("def footprints : List (String × String × List (String × String)) := [\n")
 	var rows []string
 	for _, p := range sortedPkgs() {
 		sp := short(p.PkgPath)
@@ -245,7 +245,11 @@ func genFootprints(w *bytes.Buffer) {
 			for _, u := range us {
 				q = append(q, fmt.Sprintf("(%s, %s)", lstr(u.obj), lstr(u.kind)))
 			}
-			rows = append(rows, fmt.Sprintf("  (%s, [%s])", lstr(qname(p, fd)), strings.Join(q, ", ")))
+			rt := ""
+			if rn := recvName(fd); rn != "" {
+				rt = strings.ReplaceAll(short(p.PkgPath), "/", "_") + "." + rn
+			}
+			rows = append(rows, fmt.Sprintf("  (%s, %s, [%s])", lstr(qname(p, fd)), lstr(rt), strings.Join(q, ", ")))
 		}
 	}
 	w.WriteString(strings.Join(rows, ",\n") + "\n]\n\n")
